@@ -45,6 +45,15 @@ func (vc *FnVC) TranslateLemma() {
 		}
 		o := vc.ob("lemma", fmt.Sprintf("post#%d", i+1), "lemma conclusion "+e.Text, s, token.NoPos)
 		o.noReplay = true
+		if fc.Arith == "bv" {
+			q, err := vc.bvLemmaQuery(e.Expr)
+			if err != nil {
+				vc.errorf("lemma ensures %q: %v", e.Text, err)
+				continue
+			}
+			o.RawQuery = q
+			o.Text += " [proved over bit vectors wide enough that nothing wraps]"
+		}
 	}
 }
 
@@ -94,6 +103,7 @@ func (vc *FnVC) useLemmaInstance(text string, env *Env) (string, bool) {
 		lenv.vars[p.Name] = Term{S: t.S, Sort: t.Sort}
 	}
 	var hyps, concl []string
+	hyps = append(hyps, bvLemmaRanges(lf, func(n string) string { return lenv.vars[n].S })...)
 	for _, r := range lf.Requires {
 		s, err := lenv.ElabBool(r.Expr)
 		if err != nil {
@@ -146,6 +156,7 @@ func (vc *FnVC) useLemma(name string) {
 		binders = append(binders, fmt.Sprintf("(%s %s)", n, srt))
 	}
 	var hyps, concl, pats []string
+	hyps = append(hyps, bvLemmaRanges(lf, func(n string) string { return "lq$" + n })...)
 	for _, r := range lf.Requires {
 		s, err := env.ElabBool(r.Expr)
 		if err != nil {
